@@ -158,13 +158,30 @@ func isInTestOnlyContext(
 	return ctx.testOnlyFuncs.Match(*ctx.currentPkgPath, funcName, funcName)
 }
 
+// calledExpr returns the expression that names the called function: the callee
+// may be parenthesised and a generic function may carry explicit type arguments
+// ((pkg.F)(), F[int](), (pkg.F[int, string])())
+func calledExpr(call *ast.CallExpr) ast.Expr {
+	fun := ast.Unparen(call.Fun)
+	for {
+		switch f := fun.(type) {
+		case *ast.IndexExpr:
+			fun = ast.Unparen(f.X)
+		case *ast.IndexListExpr:
+			fun = ast.Unparen(f.X)
+		default:
+			return fun
+		}
+	}
+}
+
 // findFunctionCallViolation checks if a function call uses @testonly function or method
 // Returns violation or nil
 func findFunctionCallViolation(
 	ctx *testOnlyContext,
 	call *ast.CallExpr,
 ) *TestOnlyViolation {
-	switch fun := call.Fun.(type) {
+	switch fun := calledExpr(call).(type) {
 	case *ast.Ident:
 		// Direct function call: CreateMockData()
 		// Resolve the identifier: a variable, parameter or closure that merely
